@@ -7,11 +7,12 @@ checks, na = [], []
 NA_REASON = {}
 nafile = os.path.join(V, "tools", "not_applicable.json")
 if os.path.exists(nafile): NA_REASON = json.load(open(nafile))
+READY = set(open(os.path.join(V, "tools", "ready.txt")).read().split())
 for p in props:
     pid = p["id"]
     f = os.path.join(V, "harness", pid.lower() + ".py")
     meta = None
-    if os.path.exists(f):
+    if os.path.exists(f) and pid in READY:
         tree = ast.parse(open(f).read())
         for node in tree.body:
             if isinstance(node, ast.Assign) and getattr(node.targets[0], "id", None) == "META":
